@@ -32,6 +32,8 @@ func runC03(c *core.Ctx) {
 	ruleInStreamGuards(c, "C03-R6")
 	ruleSeparators(c, "C03-R7") // tokens must stay separated for an independent tokenizer too
 	rulePredictorGeometry(c, "C03-R8")
+	ruleTrailerSizeLast(c)
+	rulePaeth(c, "C03-R8") // PNG-predicted stream data (xref streams, user streams) must be decodable by any reader
 }
 
 // literalsWritten collects constant strings written in fn (format strings of
@@ -1205,6 +1207,102 @@ func ruleInStreamGuards(c *core.Ctx, rule string) {
 				if len(cs.Call.Args) == 1 {
 					if s, ok := constBytes(cl.Info(), cs.Call.Args[0]); ok && strings.Contains(s, "endstream") {
 						o.Require(cg.Dominates(v, clr), "inStream is cleared before 'endstream' is written")
+					}
+				}
+			}
+		}
+	})
+}
+
+// ruleTrailerSizeLast (C03-R9): /Size in the trailer is one more than the
+// highest object number in the cross-reference table.  Writer.Close takes it
+// from the allocation counter; everything that can still allocate an object
+// (embedding the Info dictionary, flushing pending object streams, ...) has
+// to happen before that.  Between the store of /Size and the writing of the
+// cross-reference data only calls that cannot allocate are allowed.
+func ruleTrailerSizeLast(c *core.Ctx) {
+	c.Check("C03-R9", "pdf.(*Writer).Close/size-last", "the trailer's /Size is read from the allocation counter after the last object has been allocated: no call that can reach Writer.Alloc lies between the store of /Size and the writing of the cross-reference data", func(o *core.Ob) {
+		fn := c.Prog.Func("pdf", "(*Writer).Close")
+		g := fn.Graph()
+		info := fn.Info()
+		var sizeV []*core.V
+		for _, v := range g.Vs {
+			as, ok := v.AST.(*ast.AssignStmt)
+			if !ok || len(as.Lhs) != 1 {
+				continue
+			}
+			if _, key, ok := core.MapIndexKey(info, as.Lhs[0]); ok && key == "Size" {
+				sizeV = append(sizeV, v)
+				o.At(fn.Site(as, "/Size stored"))
+				o.Require(strings.Contains(c.Prog.Src(as.Rhs[0]), "nextRef"), "/Size is not taken from the allocation counter: %s", c.Prog.Src(as.Rhs[0]))
+			}
+		}
+		if len(sizeV) != 1 {
+			core.Undecided("expected one store of /Size in Writer.Close, found %d", len(sizeV))
+		}
+		xw := callVertices(g, "pdf.(*Writer).writeXRefStream", "pdf.(*Writer).writeXRefTable")
+		if len(xw) < 2 {
+			core.Undecided("calls writing the cross-reference data not found")
+		}
+		// functions of package pdf that can reach Alloc (static calls and pdf's own interface methods by name)
+		pkg := c.Prog.Pkg("pdf")
+		canAlloc := map[string]bool{"pdf.(*Writer).Alloc": true}
+		for changed := true; changed; {
+			changed = false
+			for _, f := range c.Prog.Funcs(pkg) {
+				if canAlloc[f.Key] {
+					continue
+				}
+				for _, cs := range core.CallsIn(f.Info(), f.Decl, true) {
+					dyn := false
+					if cs.Fn != nil && cs.Fn.Pkg() != nil && strings.HasPrefix(cs.Fn.Pkg().Path(), core.ModulePath) {
+						if sig, ok := cs.Fn.Type().(*types.Signature); ok && sig.Recv() != nil {
+							if _, isIface := sig.Recv().Type().Underlying().(*types.Interface); isIface && cs.Fn.Name() == "Embed" {
+								dyn = true // Embedder implementations allocate their objects
+							}
+						}
+					}
+					if canAlloc[cs.Key] || dyn {
+						canAlloc[f.Key] = true
+						changed = true
+						break
+					}
+				}
+			}
+		}
+		o.Fact("%d functions of package pdf can allocate", len(canAlloc))
+		for _, x := range xw {
+			o.Require(g.Dominates(sizeV[0], x.V), "%s: the cross-reference data is written on a path that has not stored /Size", c.Prog.Pos(x.Call.Pos()))
+		}
+		after := g.ReachFrom(sizeV[0], false, nil)
+		for _, v := range g.Vs {
+			if v.AST == nil || !after[v] {
+				continue
+			}
+			reachesX := false
+			for _, x := range xw {
+				if v == x.V {
+					reachesX = false
+					break
+				}
+				if g.ReachFrom(v, false, nil)[x.V] {
+					reachesX = true
+				}
+			}
+			if !reachesX {
+				continue
+			}
+			for _, cs := range core.CallsIn(info, v.AST, false) {
+				o.Count(1)
+				if canAlloc[cs.Key] || (cs.Fn != nil && cs.Fn.Pkg() != nil && strings.HasPrefix(cs.Fn.Pkg().Path(), core.ModulePath) && c.Prog.FuncOf(cs.Fn) == nil) {
+					o.FailAt(fn.Site(cs.Call, ""), "%s: %s is called after /Size was stored and may allocate another object: the table then has an entry whose number is not below /Size", c.Prog.Pos(cs.Call.Pos()), cs.Key)
+				}
+				// interface methods of the repository (Embed etc.)
+				if cs.Fn != nil {
+					if sig, ok := cs.Fn.Type().(*types.Signature); ok && sig.Recv() != nil {
+						if _, isIface := sig.Recv().Type().Underlying().(*types.Interface); isIface && cs.Fn.Pkg() != nil && strings.HasPrefix(cs.Fn.Pkg().Path(), core.ModulePath) {
+							o.FailAt(fn.Site(cs.Call, ""), "%s: %s (an interface method of the repository) is called after /Size was stored and may allocate", c.Prog.Pos(cs.Call.Pos()), cs.Key)
+						}
 					}
 				}
 			}
